@@ -626,6 +626,42 @@ func registerStubs(e *Engine) {
 		return out
 	})
 	e.reg("(*regexp.Regexp).String", func(fr *frame, args []value) value { return reOf(args[0]).String() })
+	e.reg("regexp.Compile", func(fr *frame, args []value) value {
+		s, ok := args[0].(string)
+		if !ok {
+			panic(unsupported{"regexp pattern must be concrete"})
+		}
+		re, err := regexp.Compile(s)
+		if err != nil {
+			return tuple{(*value)(nil), mkError(err.Error(), nil)}
+		}
+		v := value(&opaque{kind: "regexp", p: re})
+		return tuple{&v, iface{}}
+	})
+	e.reg("(*regexp.Regexp).SubexpNames", func(fr *frame, args []value) value {
+		names := reOf(args[0]).SubexpNames()
+		out := make([]value, len(names))
+		for i, n := range names {
+			out[i] = n
+		}
+		return out
+	})
+	e.reg("(*regexp.Regexp).FindSubmatchIndex", func(fr *frame, args []value) value {
+		sl, _ := args[1].([]value)
+		b, ok := bytesOfConcrete(sl)
+		if !ok {
+			panic(unsupported{"regexp on symbolic bytes"})
+		}
+		r := reOf(args[0]).FindSubmatchIndex(b)
+		if r == nil {
+			return []value(nil)
+		}
+		out := make([]value, len(r))
+		for i, x := range r {
+			out[i] = x
+		}
+		return out
+	})
 
 	// ---- logging / metrics / tracing: environment, no effect on results ----
 	for _, pfx := range []string{
